@@ -29,7 +29,8 @@ ASSUMPTIONS = ["gradient error = relative RMS over B=128 paths of the per-path g
 REQUIRED_COUNTERS = ["forward_equal_checks", "logqp_forward_checks", "gradient_ladders", "subset_losses",
                      "neural_reference_ladders", "selectivity_cases", "pairs_ito", "pairs_stratonovich",
                      "forward_list_ts_under_default_f32", "forward_equal_adaptive_checks",
-                     "adjoint_adaptive_gradients", "forward_with_adjoint_adaptive_requested"]
+                     "adjoint_adaptive_gradients", "forward_with_adjoint_adaptive_requested",
+                     "neural_logqp_ladders"]
 THRESHOLDS = {"slope": 0.2, "final_half": 0.15, "final_one": 0.05, "final_over_first": 0.5, "already_small": 2e-3}
 
 ITO_FWD = ["euler", "milstein", "srk"]
@@ -70,6 +71,9 @@ def cases(tier, seed):
             # generic neural SDE against fine backprop
             out.append({"key": f"neural-{st[:5]}-{nt}", "kind": "neural", "sde_type": st, "noise_type": nt,
                         "rseed": hash((seed, 4242, st == "ito", zoo.NOISE_TYPES.index(nt))) % (2 ** 31), "cost": 10})
+            out.append({"key": f"neural-logqp-{st[:5]}-{nt}", "kind": "neural", "sde_type": st, "noise_type": nt,
+                        "logqp": True, "rseed": hash((seed, 4343, st == "ito", zoo.NOISE_TYPES.index(nt))) % (2 ** 31),
+                        "cost": 12})
     for i in range(8 if tier == "quick" else 200):
         out.append({"key": f"select-{i}", "kind": "select", "rseed": hash((seed, 777, i)) % (2 ** 31), "cost": 1})
     return out
@@ -159,20 +163,27 @@ def _rel_rms(G, Gt):
     return float(((G - Gt) ** 2).sum(1).mean().sqrt() / (Gt ** 2).sum(1).mean().sqrt())
 
 
-def _ladder(sde, method, adjoint_method, y0v, tsl, w, entropy, levy, true_grad, levels, per_path, options=None):
+def _ladder(sde, method, adjoint_method, y0v, tsl, w, entropy, levy, true_grad, levels, per_path, options=None, wq=None):
     import torchsde
     params = [p for p in sde.parameters()]
     B = y0v.size(0)
-    base = torchsde.BrownianInterval(tsl[0], tsl[-1], size=(B, sde.m), entropy=entropy, levy_area_approximation=levy)
+    msize = sde.m + (1 if (wq is not None and sde.noise_type == "diagonal") else 0)
+    base = torchsde.BrownianInterval(tsl[0], tsl[-1], size=(B, msize), entropy=entropy, levy_area_approximation=levy)
     ts = torch.tensor(tsl)
     errs, errs_shared, dts = [], [], []
     Gt, St = true_grad(base, params)
     for k in levels:
         dt = (tsl[-1] - tsl[0]) * 2.0 ** -k
         y0 = y0v.clone().requires_grad_(True)
-        ys = torchsde.sdeint_adjoint(sde, y0, ts, bm=base, method=method, adjoint_method=adjoint_method, dt=dt,
-                                     options=options)
-        G, S = _path_grads((ys * w).sum(), y0, params, per_path)
+        if wq is None:
+            ys = torchsde.sdeint_adjoint(sde, y0, ts, bm=base, method=method, adjoint_method=adjoint_method, dt=dt,
+                                         options=options)
+            loss = (ys * w).sum()
+        else:
+            ys, lq = torchsde.sdeint_adjoint(sde, y0, ts, bm=base, method=method, adjoint_method=adjoint_method, dt=dt,
+                                             options=options, logqp=True)
+            loss = (ys * w).sum() + (lq * wq).sum()
+        G, S = _path_grads(loss, y0, params, per_path)
         errs.append(_rel_rms(G, Gt))
         errs_shared.append(float((S - St).norm() / St.norm()) if St.numel() else 0.0)
         dts.append(dt)
@@ -315,14 +326,26 @@ def run_neural(case):
     else:
         ref_method, ref_dt, levy = "heun", 2.0 ** -12, "none"
 
+    # variant: logqp=True and a loss that also weights the returned log-ratio (the adjoint then runs on the augmented
+    # SDE; well-conditioned diffusion so that the pseudo-inverse is benign)
+    with_logqp = bool(case.get("logqp"))
+    wq = torch.randn(len(tsl) - 1, B, generator=gen) * 0.3 if with_logqp else None
+    if with_logqp:
+        sde = zoo.Conditioned(sde)
+        cnt["neural_logqp_ladders"] = 1
+
     def true_grad(bm, params):
         y0 = y0v.clone().requires_grad_(True)
-        ys = torchsde.sdeint(sde, y0, ts, bm=bm, method=ref_method, dt=ref_dt)
-        return _path_grads((ys * w).sum(), y0, params, per_path)
+        if not with_logqp:
+            ys = torchsde.sdeint(sde, y0, ts, bm=bm, method=ref_method, dt=ref_dt)
+            return _path_grads((ys * w).sum(), y0, params, per_path)
+        ys, lq = torchsde.sdeint(sde, y0, ts, bm=bm, method=ref_method, dt=ref_dt, logqp=True)
+        return _path_grads((ys * w).sum() + (lq * wq).sum(), y0, params, per_path)
 
     errs, errs_sh, dts, gn = _ladder(sde, method, am, y0v, tsl, w, rng.randrange(1, 10 ** 9), levy, true_grad,
-                                     range(4, 9), per_path)
-    ctx = f"neural sde_type={st} noise={nt} method={method} adjoint_method={am} loss_on={subset} rms|grad|={gn:.3g}"
+                                     range(4, 9), per_path, wq=wq)
+    ctx = (f"neural sde_type={st} noise={nt} method={method} adjoint_method={am} loss_on={subset} rms|grad|={gn:.3g} "
+           f"logqp={with_logqp}")
     sl = _judge(errs, dts, True, ctx, viol, f"adjoint_gradient_not_converging:{st}:{nt}:{am}:neural")
     if not (errs_sh[-1] <= THRESHOLDS["final_half"] and errs_sh[-1] <= 1.5 * errs_sh[0] + 1e-3):
         viol.append({"mechanism": f"adjoint_parameter_gradient_not_converging:{st}:{nt}:{am}:neural",
